@@ -98,6 +98,7 @@ fn dispatch(ctx: &Ctx) -> bool {
         "C12" => props::pubprops::run(ctx, props::pubprops::Which::C12),
         "C13" => props::pubprops::run(ctx, props::pubprops::Which::C13),
         "C36" => props::pubprops::run_c36(ctx),
+        "C24" => props::parsers::run(ctx),
         _ => return false,
     }
     true
@@ -129,6 +130,7 @@ fn run_replay(id: &str, path: &PathBuf) -> i32 {
             case,
             if id == "C12" { props::pubprops::Which::C12 } else { props::pubprops::Which::C13 },
         ),
+        Some("c24") | Some("c24_pilen") => props::parsers::replay(case),
         other => Err(format!("no replay handler for kind {:?}", other)),
     };
     match r {
